@@ -959,3 +959,4 @@ EXPLANATION += (' Round 7: ' + 'COPY/deepcopy-is-deep; SLICE/offset-grid (a hand
 EXPLANATION += (' Rounds 9-10: ' + 'PITFALL/dropped-pop over the step-appending methods (a popped element is put back or used on every way out).')
 EXPLANATION += (' Round 11: ' + 'INV allow-list narrowed to the paths that skip the final _add_chord; a defect on every normal path is located; PITFALL/reslice-indices.')
 EXPLANATION += (' Round 13: ' + 'a defect that mentions a made-up symbol is not a known non-zero (the every-path criterion does not apply).')
+EXPLANATION += (' Round 14: ' + 'NONE/default-tested-by-identity.')
